@@ -10,7 +10,8 @@ Record stub := {
   s_id : string;
   s_res : list (string * outcome (list nat));   (* file -> lines reported | failure; absent = reports nothing *)
   s_contrib : list (string * list nat);         (* file -> data remembered for finalize *)
-  s_fin : fin_kind
+  s_fin : fin_kind;
+  s_cross : bool                                (* overrides finalize(); a plain stub stores nothing and inherits finalize() *)
 }.
 
 Fixpoint lookup {A} (k : string) (l : list (string * A)) : option A :=
@@ -23,8 +24,10 @@ Definition rule_of_stub (s : stub) : rule :=
                        | Some (Fail e) => Fail e
                        | None => Ok []
                        end;
-     r_contrib := fun p => match lookup p (s_contrib s) with Some ns => map (fun n => (p, n)) ns | None => [] end;
+     r_contrib := fun p => if s_cross s then match lookup p (s_contrib s) with Some ns => map (fun n => (p, n)) ns | None => [] end else [];
+     r_cross := s_cross s;
      r_final := fun store =>
+                  if negb (s_cross s) then Ok [] else
                   let echo := Ok (map (fun ev : evid => (s_id s, fst ev, snd ev)) store) in
                   match s_fin s with
                   | FEcho => echo
@@ -63,19 +66,16 @@ Definition candidates (q : cquirks) : list cquirks := q :: map (fun i => with_fl
 Definition run_mode (mode : nat) (q : cquirks) (rules : list rule) (files : list string) :=
   match mode with 0 => run q rules files | _ => run_par q rules files end.
 
-(* what the property demands in each mode: parallel finalization happens in the parent, whose rules saw no
-   file (property C07 owns that loss); per-file cells must be the specified ones in both modes *)
+(* what the property demands: in both modes the specified cells and the cross-file findings of the whole file set
+   (that the parallel run finalizes on the same evidence as the sequential one is also the subject of C07) *)
 Definition spec_mode (mode : nat) (rules : list rule) (files : list string) : obs :=
-  match mode with
-  | 0 => (None, flat_viols (spec_cells rules files) (spec_fins rules files), [])
-  | _ => (None, flat_viols (spec_cells rules files) (map (fun r => (r_id r, ok_or_nil (r_final r []))) rules), [])
-  end.
+  (None, flat_viols (spec_cells rules files) (spec_fins rules files), []).
 
 (* the property's domain: finalize() does not raise on what the run has stored (no file content is known to
    make it raise; when it does the run aborts - theorem finalize_failure_crashes) *)
 Definition is_ok {A} (o : outcome A) : bool := match o with Ok _ => true | Fail _ => false end.
 Definition in_domain (mode : nat) (rules : list rule) (files : list string) : bool :=
-  forallb (fun r => is_ok (r_final r (match mode with 0 => store_of r files | _ => [] end))) rules.
+  forallb (fun r => is_ok (r_final r (match mode with 0 => store_of r files | _ => par_store r files end))) rules.
 
 (* [in domain ; impl = spec ; model ideal = spec ; impl = model c for each candidate c] *)
 Definition judge_run (q : cquirks) (mode : nat) (stubs : list stub) (files : list string) (impl : obs) : list bool :=
